@@ -72,6 +72,55 @@ func TestVerifC06(t *testing.T) {
 		c06History(t, o, seed, keyTypes, h)
 	}
 	c06Newest(t, o, rng)
+	c06SharedKeyCompromise(t, o)
+}
+
+// Two issuers and key reuse: the same private key ends up stored with both issuers (the
+// first obtain went to the second issuer because the first was down; the forced renewal
+// then went to the first issuer, reusing the key). When the newer certificate is revoked
+// for key compromise the replacement must not use that key — wherever it is stored.
+func c06SharedKeyCompromise(t *testing.T, o *vOut) {
+	for _, subj := range []string{"shared.example.com", "*.shared.example.com"} {
+		synctest.Test(t, func(t *testing.T) {
+			st := vNewMem()
+			i1 := vNewIssuer("ca-1", vNewCA("s1"))
+			i2 := vNewIssuer("ca-2", vNewCA("s2"))
+			down := true
+			i1.Behave = func(int, []string) error {
+				if down {
+					return fmt.Errorf("verif: ca-1 down")
+				}
+				return nil
+			}
+			cache, cfg := vNewCfg(st, []Issuer{i1, i2}, func(c *Config, _ *CacheOptions) { c.ReusePrivateKeys = true })
+			defer cache.Stop()
+			ctx := context.Background()
+			if err := cfg.ObtainCertSync(ctx, subj); err != nil {
+				t.Fatal(err)
+			}
+			time.Sleep(24 * time.Hour)
+			down = false
+			if err := cfg.RenewCertSync(ctx, subj, true); err != nil {
+				t.Fatal(err)
+			}
+			c, err := cfg.CacheManagedCertificate(ctx, subj)
+			if err != nil {
+				t.Fatal(err)
+			}
+			bad := vPubHash(c.Leaf.PublicKey)
+			c.ocsp = &ocsp.Response{Status: ocsp.Revoked, RevocationReason: 1}
+			time.Sleep(time.Hour)
+			_, ferr := cfg.forceRenew(ctx, cfg.Logger, c)
+			res, lerr := cfg.loadCertResourceAnyIssuer(ctx, subj)
+			o.Stat("shared_key_compromise_checked", 1)
+			if ferr == nil && lerr == nil {
+				if leaf := c06LeafOf(res.CertificatePEM); leaf != nil && vPubHash(leaf.PublicKey) == bad {
+					o.Mon("C06 compromised-key-reused", map[string]any{"scenario": "two issuers share the key (reuse)", "subject": subj,
+						"served_issuer": res.issuerKey})
+				}
+			}
+		})
+	}
 }
 
 func c06History(t *testing.T, o *vOut, seed int64, keyTypes []KeyType, idx int) {
@@ -99,9 +148,8 @@ func c06History(t *testing.T, o *vOut, seed int64, keyTypes []KeyType, idx int) 
 		cache, cfg := vNewCfg(st, issuers, func(c *Config, _ *CacheOptions) {
 			c.ReusePrivateKeys = reuse
 			c.KeySource = StandardKeyGenerator{KeyType: kt}
-			if nIss == 2 && rng.Intn(3) == 0 {
-				c.IssuerPolicy = UseFirstRandomIssuer
-			}
+			// (UseFirstRandomIssuer shuffles with the package's unseeded generator: a history using it
+			// would not replay from VERIF_SEED, so it is exercised separately below)
 		})
 		defer cache.Stop()
 		ctx := context.Background()
